@@ -791,7 +791,39 @@ def rule_z16(ctx, facts):
                  "that were turned away meanwhile are never acted on, and the map stays above its load threshold" % (c.span, ac.span_at(stale[0])))
 
 
+def rule_z17(ctx, facts, rule="Z17"):
+    """an operation that raises the count asks add_count to look at the threshold: every call `add_count(n, hint, ..)` with a positive
+    delta passes `Some(_)` as the resize hint (`None` means: adjust the counter only, never compare it with size_ctl).  An insert that
+    passes None can carry the count across the threshold without anybody starting the resize."""
+    from .rules_c17 import passes_none
+    from .affine import evaluator, TOP
+    ac = facts.body("map::HashMap::add_count")
+    hint_k = [k for k in range(1, ac.nargs + 1) if ac.ty(k).get("s", "").startswith("std::option::Option<usize>")]
+    delta_k = [k for k in range(1, ac.nargs + 1) if ac.ty(k).get("s") == "isize"]
+    if len(hint_k) != 1 or len(delta_k) != 1:
+        ctx.fail_closed("%s: add_count(isize, Option<usize>, ..) not recognised" % rule)
+        return
+    n = 0
+    for b in facts.bodies:
+        for c in b.calls:
+            if c.resolved != ac.id or b.is_cleanup(c.b):
+                continue
+            d = evaluator(b).operand(c.args[delta_k[0] - 1])
+            if d is TOP or not d.is_const() or d.c <= 0:
+                continue
+            n += 1
+            none = passes_none(facts, b, c, hint_k[0])
+            ctx.inst(rule, b, "add_count(+%s) asks for the threshold test" % d.c, c.span, not none,
+                     "the hint is Some(_)" if not none else
+                     "an entry is added to the count with the resize hint None: add_count then never compares the count with size_ctl, and the "
+                     "insert that crosses the load threshold does not start the resize")
+    if n < 2:
+        ctx.fail_closed("%s: expected the two add_count(+1, ..) calls of put, found %d" % (rule, n))
+
+
 def run(ctx, facts):
+    ctx.rule("Z17", "every add_count with a positive delta passes Some(hint): an insert always lets add_count compare the count with the threshold", floor=2)
+    rule_z17(ctx, facts)
     ctx.rule("Z16", "add_count re-reads the count after every resize it took part in, before it tests the threshold again", floor=2)
     rule_z16(ctx, facts)
     ctx.rule("Z15", "the walks that copy an old bin are exhaustive: left only through a test of the cursor itself", floor=3)
